@@ -2,9 +2,28 @@
 from harness._compute import search_with, sym_correspondence
 
 PROPERTY = "C09"
-LEAN_TARGETS = ['VectorModel.Props.C09']
-THEOREM_FILES = ['VectorModel/Props/C09.lean']
+LEAN_TARGETS = ['VectorModel.Props.C09', 'VectorModel.Refine.LorentzSigned']
+THEOREM_FILES = ['VectorModel/Props/C09.lean', 'VectorModel/Refine/LorentzSigned.lean']
 NOT_COVERED = ['float64 rounding']
 ALWAYS_SEARCH = True          # the law sweep on the real code is cheap: run it in every tier (exploration, not proof)
 search = search_with("c09")
 correspondence = sym_correspondence(['boost', 'boost_p4', 'boost_beta3', 'boostX', 'boostY', 'boostZ', 'boostCM_of', 'boostCM_of_p4', 'boostCM_of_beta3', 'to_beta3'], 'c09')
+
+
+_base_corr = correspondence
+
+
+def correspondence(ctx):
+    """+ keyword call = positional call in the documented order for every boost* method (object, NumPy, Awkward)"""
+    from harness import backends, c05
+    out = _base_corr(ctx)
+    kbad, kst = backends.keyword_lattice(ctx)
+    out["stats"].update(kst)
+    seen = set()
+    for a_, b_, k_ in kbad:
+        if k_.split(":")[-1].startswith("boost") and k_ not in seen:
+            seen.add(k_)
+            out["disagreements"].append(f"signature: {a_} :: {b_}"[:300])
+            out["failing_inputs"].append({"key": k_, "what": f"{a_}: {b_}"[:400], "code": c05.keyword_replay(ctx.seed, ctx.tier, k_)})
+    out["ok"] = out["ok"] and not seen
+    return out
